@@ -31,6 +31,33 @@ func nAssert(e node) node           { return node{"assert", e} }
 func nEval(e node) node             { return node{"eval", e} }
 func nCall(f node, a ...node) node  { return node{"call", f, seq(a)} }
 func nApp(f string, a ...node) node { return node{"call", nSym(f), seq(a)} }
+
+// nDot is the dot path x.k1.k2 (the variable x holds a hash); nSetDot is (set x.k1.k2 e);
+// nEHash is the empty hash literal {}.
+func nDot(x string, ks ...string) node {
+	k := []any{}
+	for _, y := range ks {
+		k = append(k, y)
+	}
+	return node{"dot", x, k}
+}
+func nSetDot(x string, ks []string, e node) node {
+	k := []any{}
+	for _, y := range ks {
+		k = append(k, y)
+	}
+	return node{"setdot", x, k, e}
+}
+func nEHash() node { return node{"ehash"} }
+
+func dotPath(x any, ks any) string {
+	p := x.(string)
+	for _, k := range asSeq(ks) {
+		p += "." + k.(string)
+	}
+	return p
+}
+
 func nTrace(k int, a ...node) node {
 	return nApp("trace", append([]node{nInt(k)}, a...)...)
 }
@@ -284,6 +311,12 @@ func render(e node, l *layout) string {
 		return "(" + join(l, "eval", "(quote "+render(asNode(e[1]), nil)+")") + ")"
 	case "sq":
 		return "^" + renderSq(asNode(e[1]), l)
+	case "dot":
+		return dotPath(e[1], e[2])
+	case "setdot":
+		return "(" + join(l, "set", dotPath(e[1], e[2]), render(asNode(e[3]), l)) + ")"
+	case "ehash":
+		return "{}"
 	}
 	panic(fmt.Sprintf("render: unknown node %v", e[0]))
 }
@@ -348,9 +381,33 @@ func size(e any) int {
 // x := e, x = e, if/else, go-style for, break/continue); everything else is an
 // s-expression operand, which infix blocks accept.
 
-var infixBinary = map[string]bool{"+": true, "-": true, "*": true, "==": true, "!=": true, "<": true, ">": true, "<=": true, ">=": true}
+var infixBinary = map[string]bool{"+": true, "-": true, "*": true, "==": true, "!=": true, "<": true, ">": true, "<=": true, ">=": true,
+	"mod": true, "**": true}
 
-func infixExpr(e node) string {
+func infixExpr(e node) string { return infixExprC(e, false) }
+
+// infixSelector: the infix spelling of an element or field read through a variable, a[i] for
+// (aget a i) and h.k for (hget h (quote k)); "" when the form has none.
+func infixSelector(name string, args []any) string {
+	if len(args) != 2 || asNode(args[0])[0] != "sym" {
+		return ""
+	}
+	recv := asNode(args[0])[1].(string)
+	idx := asNode(args[1])
+	switch {
+	case name == "aget" && (idx[0] == "sym" || (idx[0] == "int" && asInt(idx[1]) >= 0)):
+		return recv + "[" + render(idx, nil) + "]"
+	case name == "hget" && idx[0] == "quote" && asNode(idx[1])[0] == "sym":
+		return recv + "." + asNode(idx[1])[1].(string)
+	}
+	return ""
+}
+
+// infixExprC: used says that the value of e is consumed where it stands by an operator, a test or an
+// assignment. The interpreter keeps a[i] and h.k as references until something consumes them, so
+// only there does the infix spelling stand for the element itself; elsewhere the element is read
+// with the prefix form.
+func infixExprC(e node, used bool) string {
 	switch e[0] {
 	case "int", "sym":
 		return render(e, nil)
@@ -360,23 +417,30 @@ func infixExpr(e node) string {
 		if callee[0] == "sym" {
 			name := callee[1].(string)
 			if infixBinary[name] && len(args) == 2 {
-				return "{" + infixExpr(asNode(args[0])) + " " + name + " " + infixExpr(asNode(args[1])) + "}"
+				return "{" + infixExprC(asNode(args[0]), true) + " " + name + " " + infixExprC(asNode(args[1]), true) + "}"
 			}
 			if name == "not" && len(args) == 1 {
-				return "{not " + infixExpr(asNode(args[0])) + "}"
+				return "{not " + infixExprC(asNode(args[0]), true) + "}"
+			}
+			if used {
+				if t := infixSelector(name, args); t != "" {
+					return t
+				}
 			}
 		}
 	case "and", "or":
 		es := asSeq(e[1])
 		if len(es) == 2 {
-			return "{" + infixExpr(asNode(es[0])) + " " + e[0].(string) + " " + infixExpr(asNode(es[1])) + "}"
+			return "{" + infixExprC(asNode(es[0]), used) + " " + e[0].(string) + " " + infixExprC(asNode(es[1]), used) + "}"
 		}
 	case "cond":
 		cs := asSeq(e[1])
 		if len(cs) == 1 {
 			c := asSeq(cs[0])
-			return "{if " + infixExpr(asNode(c[0])) + " { " + infixStmt(asNode(c[1])) + " } else { " + infixStmt(asNode(e[2])) + " }}"
+			return "{if " + infixExprC(asNode(c[0]), true) + " { " + infixStmt(asNode(c[1])) + " } else { " + infixStmt(asNode(e[2])) + " }}"
 		}
+	case "ehash":
+		return "(hash)" // inside an infix block {} is an empty block
 	}
 	return render(e, nil)
 }
@@ -403,7 +467,9 @@ func unbrace(t string) string {
 func infixStmt(e node) string {
 	switch e[0] {
 	case "set": // (both `x = e` and `x := e` lower to set; def has no infix form)
-		return e[1].(string) + " = " + infixExpr(asNode(e[2]))
+		return e[1].(string) + " = " + infixExprC(asNode(e[2]), true)
+	case "setdot":
+		return dotPath(e[1], e[2]) + " = " + infixExprC(asNode(e[3]), true)
 	case "break", "continue":
 		if e[1].(string) == "" {
 			return e[0].(string)
